@@ -152,8 +152,8 @@ class C16(Prop):
                    'sqlite below KVFile is real and fault-free here']
     REAL_VS_STUB = {'real': ['dataflows concatenate / duplicate / delete_resource / iterable_loader / update_resource', 'kvfile + sqlite'], 'stub': ['KVFile twin only sets the cache-size knob and counts operations']}
     PROBES = ['duplicate-spilled-to-disk', 'concatenate-with-rename', 'delete-after-duplicate', 'empty-resource', 'big-resource', 'duplicate-to-end', 'iterable-appended', 'concat-then-delete', 'concatenate-without-id-field', 'sources-appended', 'load-tuple-appended', 'schema-edit-on-one-twin-after-duplicate']
-    TIERS = {'quick': dict(runs=800, wall=100, run_wall=120),
-             'thorough': dict(runs=25000, wall=1700, run_wall=300)}
+    TIERS = {'quick': dict(runs=800, wall=100, run_wall=300),
+             'thorough': dict(runs=25000, wall=1700, run_wall=600)}
     SHRINK_FROZEN = ('fields_', 'gen_stats')
 
     def generate(self, rng, tier):
